@@ -207,6 +207,9 @@ pub fn run_map(ctx: &Ctx, dir: &std::path::Path, c: &Case, m: &Mat, vcf: bool) -
     let names = contig_names(m.reference.len());
     // FASTA headers may carry a description after the name; it is not part of the contig name
     let headers: Vec<String> = names.iter().enumerate().map(|(i, n)| if (i + c.k / 2) % 2 == 0 { format!("{n} len={} some description", m.reference[i].len()) } else { n.clone() }).collect();
+    // alignment output does not name contigs: there the records of a reference may share the first word of
+    // their headers (">contig 1", ">contig 2"); every record still counts
+    let headers: Vec<String> = if !vcf && (c.k / 2 + m.reference.len()) % 4 == 0 { (0..names.len()).map(|i| format!("contig {i} of {}", names.len())).collect() } else { headers };
     cli::write_fasta(&dir.join("ref.fa"), &headers, &m.reference, c.width.map(|w| w as usize));
     let one_step = c.one_step && c.k == 17 && c.rc && m.samples.len() >= 2;
     let mut args: Vec<String> = vec!["map".into(), "ref.fa".into()];
